@@ -76,7 +76,7 @@ def run(replay=None):
     rep.count('properties_with_derived_disjunctions', nder)
     if not thorough:
         # quick tier: every second shape, and every shape with a derived disjunction or a literal False / True predicate
-        props = [p for i, p in enumerate(props) if i % 2 == 0 or '[an alternative moved' in p['text'] or 'False' in p['text'] or 'True' in p['text']]
+        props = [p for i, p in enumerate(props) if i % 2 == 0 or '[an alternative moved' in p['text'] or 'False' in p['text'] or 'True' in p['text'] or 'within 0 s' in p['text']]
     rep.count('properties', len(props))
     rep.count('properties_split', sum(1 for p in props if len(p['parts']) > 1))
     os.makedirs(tlc.BUILD, exist_ok=True)
@@ -87,7 +87,7 @@ def run(replay=None):
     # steps) for every tenth shape and every shape with a derived disjunction or a literal predicate
     passes = [('FALSE', 3, '0, 1, 2', props), ('TRUE', 3, '0, 1, 2', [p for p in props if p['orig']['scope']['scope_type'] == 'AFTER_UNTIL'])]
     if thorough:
-        deep = [p for i, p in enumerate(props) if i % 10 == 0 or '[an alternative moved' in p['text'] or 'False' in p['text']]
+        deep = [p for i, p in enumerate(props) if i % 10 == 0 or '[an alternative moved' in p['text'] or 'False' in p['text'] or 'within 0 s' in p['text']]
         passes += [('FALSE', 4, '0, 1', deep), ('TRUE', 4, '0, 1', [p for p in deep if p['orig']['scope']['scope_type'] == 'AFTER_UNTIL'][::2])]
     maxlen, deltas = (4, '0, 1 (3 messages: 0, 1, 2)') if thorough else (3, '0, 1, 2')
     for react, maxlen_, deltas_, sel in passes:
